@@ -9,6 +9,8 @@ From Coq Require Import Lia.
 Local Open Scope monad_scope.
 
 Definition dash : char := 45.
+Definition plus : char := 43.
+Definition markers : list char := [dash; plus].
 Definition ul_def : listdef := nth 0 lists_defs dummy_listdef.
 Definition ulre : cre := li_re ul_def.
 
@@ -26,17 +28,16 @@ Definition sp_items : list citem :=
 
 Lemma ulre_shape : exists others,
   re_ast ulre = RSeq (RBol false) (RSeq (RRep true 0 (Some 1) (RLit 92)) (RSeq (RRep true 0 None (RSet false sp_items))
-     (RSeq (RGrp 1 (RAlt (RLit dash) others)) (RSeq (RRep true 1 None (RSet false sp_items))
+     (RSeq (RGrp 1 (RAlt (RLit dash) (RAlt (RLit plus) others))) (RSeq (RRep true 1 None (RSet false sp_items))
         (RSeq (RGrp 2 (RRep true 0 None (RAny false))) (REol false)))))) /\
   (forall x, set_match false sp_items x = is_space x) /\
-  (forall s s', mx others s s' -> exists x t, st_rest s = x :: t /\ (x = 43 \/ x = 42)).
+  (forall s s', mx others s s' -> exists x t, st_rest s = x :: t /\ x = 42).
 Proof.
   eexists. split; [reflexivity|]. split.
   - intros x. unfold set_match, in_items. change sp_items with [ICat CatSpace false]. cbn [existsb in_item xorb negb orb]. change (in_cat CatSpace x) with (is_space x). destruct (is_space x); reflexivity.
-  - intros s s' H. cbn [mx] in H. destruct H as [(x & t & Hr & Hx & _)|(n & Hi & Hn & _)].
-    + apply lit_match in Hx. eauto.
-    + destruct n as [|n]; [lia|]. cbn [iterR mx] in Hi. destruct Hi as (s1 & (x & t & Hr & Hx & _) & _).
-      apply lit_match in Hx. eauto.
+  - intros s s' H. cbn [mx] in H. destruct H as (n & Hi & Hn & _).
+    destruct n as [|n]; [lia|]. cbn [iterR mx] in Hi. destruct Hi as (s1 & (x & t & Hr & Hx & _) & _).
+    apply lit_match in Hx. eauto.
 Qed.
 
 (* item text: over the safe alphabet, nothing that ends a line, first and last character not a space *)
@@ -69,39 +70,57 @@ Proof.
     exists (x :: u). rewrite Hr, Eu. cbn. repeat split; auto; try (rewrite Hi; lia); try congruence.
 Qed.
 
+Section Marker.
+Variable mk : char.
+Hypothesis Hmk : In mk markers.
+
+Lemma mk_cases : mk = dash \/ mk = plus.
+Proof. destruct Hmk as [<-|[<-|[]]]; auto. Qed.
+
+Lemma mk_not_bs : (mk =? 92) = false.
+Proof. destruct mk_cases as [-> | ->]; reflexivity. Qed.
+
+Lemma mk_eqb_refl : str_eqb [mk] [mk] = true.
+Proof. destruct mk_cases as [-> | ->]; reflexivity. Qed.
+
+Lemma mk_mem : mem [mk] [[mk]] = true.
+Proof. destruct mk_cases as [-> | ->]; reflexivity. Qed.
+
 Definition li_final (item : str) : mst :=
   mkSt (lenN item + 2) (last_of (Some 32) item) []
        [(2%nat, {| c_s := 2; c_e := lenN item + 2; c_txt := item |});
-        (1%nat, {| c_s := 0; c_e := 1; c_txt := dash :: 32 :: item |})].
+        (1%nat, {| c_s := 0; c_e := 1; c_txt := mk :: 32 :: item |})].
 
 Definition li_final' (item : str) : mst :=
   mkSt (0 + 1 + 1 + lenN item) (last_of (Some 32) item) []
        [(2%nat, {| c_s := 0 + 1 + 1; c_e := 0 + 1 + 1 + lenN item; c_txt := item |});
-        (1%nat, {| c_s := 0; c_e := 0 + 1; c_txt := dash :: 32 :: item |})].
+        (1%nat, {| c_s := 0; c_e := 0 + 1; c_txt := mk :: 32 :: item |})].
 
 Lemma li_final_eq item : li_final' item = li_final item.
 Proof. unfold li_final, li_final'. replace (0 + 1 + 1 + lenN item) with (lenN item + 2) by lia. reflexivity. Qed.
 
 Lemma li_derivation item s' : li_item_ok item ->
-  mx (re_ast ulre) (mkSt 0 None (dash :: 32 :: item) []) s' <-> s' = li_final item.
+  mx (re_ast ulre) (mkSt 0 None (mk :: 32 :: item) []) s' <-> s' = li_final item.
 Proof.
   intros [Hitem (c & t & Ei & Hc & _)]. destruct ulre_shape as (others & Sh & Hsp & Hoth). rewrite Sh. cbn [mx].
   assert (Hnl : forall x, In x item -> x <> 10) by (intros x Hx; apply Hitem in Hx; apply safe_not_nl in Hx; tauto).
   split.
   - intros (s0 & [-> _] & s1 & (n1 & Hbs & _ & _) & s2 & (n2 & Hsp1 & _ & _) & s3 & (s2' & Hg1 & ->) & s4 & (n4 & Hsp2 & Hn4 & _) &
             s5 & (s4' & (n5 & Hany & _ & _) & ->) & [-> Heol]).
-    assert (s1 = mkSt 0 None (dash :: 32 :: item) []).
+    assert (s1 = mkSt 0 None (mk :: 32 :: item) []).
     { destruct n1 as [|n1]; [exact Hbs|]. exfalso. cbn [iterR mx] in Hbs. destruct Hbs as (sx & (z & tz & Hrz & Hz & _) & _).
-      apply lit_match in Hz. subst z. cbn in Hrz. inversion Hrz. }
+      apply lit_match in Hz. subst z. cbn in Hrz. destruct mk_cases as [E|E]; rewrite E in Hrz; inversion Hrz. }
     subst s1.
-    assert (s2 = mkSt 0 None (dash :: 32 :: item) []).
+    assert (s2 = mkSt 0 None (mk :: 32 :: item) []).
     { destruct n2 as [|n2]; [exact Hsp1|]. exfalso. cbn [iterR mx] in Hsp1. destruct Hsp1 as (sx & (z & tz & Hrz & Hz & _) & _).
-      cbn in Hrz. inversion Hrz; subst z. rewrite Hsp in Hz. vm_compute in Hz. discriminate. }
+      cbn in Hrz. inversion Hrz; subst z. rewrite Hsp in Hz. destruct mk_cases as [E|E]; rewrite E in Hz; vm_compute in Hz; discriminate. }
     subst s2.
-    assert (s2' = mkSt (0 + 1) (Some dash) (32 :: item) []).
-    { destruct Hg1 as [(x & tx & Hr & Hx & ->)|Ho].
+    assert (s2' = mkSt (0 + 1) (Some mk) (32 :: item) []).
+    { destruct Hg1 as [(x & tx & Hr & Hx & ->)|[(x & tx & Hr & Hx & ->)|Ho]].
       - cbn in Hr. inversion Hr; subst. reflexivity.
-      - exfalso. apply Hoth in Ho as (x & tx & Hr & Hx). cbn in Hr. inversion Hr; subst x. destruct Hx; discriminate. }
+      - cbn in Hr. inversion Hr; subst. reflexivity.
+      - exfalso. apply Hoth in Ho as (x & tx & Hr & Hx). cbn in Hr. inversion Hr as [[Ex Et]].
+        destruct mk_cases as [E|E]; rewrite E in Ex; rewrite <- Ex in Hx; discriminate. }
     subst s2'. cbn [st_rest st_i st_p st_c] in *.
     (* exactly one space: the item text starts with a non-space *)
     apply iter_set_run in Hsp2 as (u & Eu & Hu & Hc2 & Hi2 & Hp2 & Hl2). cbn [st_rest st_i st_p st_c] in *.
@@ -120,12 +139,14 @@ Proof.
     rewrite H in Ew. rewrite app_nil_r in Ew. subst w.
     rewrite <- li_final_eq. unfold li_final'. rewrite Hiw, Hi2, Hcw, Hc2, Hpw, Hp2, H, <- Er4. cbn [lenN]. f_equal; try lia; repeat f_equal; lia.
   - intros ->. rewrite <- li_final_eq. unfold li_final'.
-    exists (mkSt 0 None (dash :: 32 :: item) []). split; [split; reflexivity|].
-    exists (mkSt 0 None (dash :: 32 :: item) []). split; [exists O; cbn; repeat split; lia|].
-    exists (mkSt 0 None (dash :: 32 :: item) []). split; [exists O; cbn; repeat split; lia|].
-    set (cap1 := (1%nat, {| c_s := 0; c_e := 0 + 1; c_txt := dash :: 32 :: item |})).
-    exists (mkSt (0 + 1) (Some dash) (32 :: item) [cap1]). split.
-    { exists (mkSt (0 + 1) (Some dash) (32 :: item) []). split; [|reflexivity]. left. exists dash, (32 :: item). cbn. auto. }
+    exists (mkSt 0 None (mk :: 32 :: item) []). split; [split; reflexivity|].
+    exists (mkSt 0 None (mk :: 32 :: item) []). split; [exists O; cbn; repeat split; lia|].
+    exists (mkSt 0 None (mk :: 32 :: item) []). split; [exists O; cbn; repeat split; lia|].
+    set (cap1 := (1%nat, {| c_s := 0; c_e := 0 + 1; c_txt := mk :: 32 :: item |})).
+    exists (mkSt (0 + 1) (Some mk) (32 :: item) [cap1]). split.
+    { exists (mkSt (0 + 1) (Some mk) (32 :: item) []). split; [|reflexivity].
+      destruct mk_cases as [E|E]; [left|right; left]; exists mk, (32 :: item); cbn [st_rest st_i st_p st_c];
+        (split; [reflexivity|]); (split; [rewrite E; reflexivity|reflexivity]). }
     exists (mkSt (0 + 1 + 1) (Some 32) item [cap1]). split.
     { exists 1%nat. split; [|split; [lia|exact Logic.I]]. cbn [iterR mx].
       exists (mkSt (0 + 1 + 1) (Some 32) item [cap1]). split; [|reflexivity].
@@ -138,31 +159,31 @@ Proof.
     split; reflexivity.
 Qed.
 
-Definition li_line (item : str) : str := dash :: 32 :: item.
+Definition li_line (item : str) : str := mk :: 32 :: item.
 
 Lemma li_match item : li_item_ok item ->
-  exists m, re_search ulre (li_line item) = Some m /\ m_groups m = [Some (li_line item); Some [dash]; Some item].
+  exists m, re_search ulre (li_line item) = Some m /\ m_groups m = [Some (li_line item); Some [mk]; Some item].
 Proof.
   intros Hitem. destruct ul_facts as (_ & _ & _ & _ & _ & Hng & Hwf & Hn & _).
   destruct (exec_exact _ Hwf) as [S C]. unfold li_line.
-  assert (Hex : match_at ulre 0 None (dash :: 32 :: item) <> None).
+  assert (Hex : match_at ulre 0 None (mk :: 32 :: item) <> None).
   { apply (proj2 (match_at_iff _ _ _ _ Hwf)). exists (li_final item). apply li_derivation; auto. }
   unfold match_at in Hex.
-  destruct (exec (re_ast ulre) kfinal 0 None (dash :: 32 :: item) []) as [[e cc]|] eqn:E; [|cbn in Hex; congruence].
+  destruct (exec (re_ast ulre) kfinal 0 None (mk :: 32 :: item) []) as [[e cc]|] eqn:E; [|cbn in Hex; congruence].
   pose proof E as E'. apply S in E' as (s' & M & Hk). apply (li_derivation item s' Hitem) in M. subst s'.
   unfold kapp, kfinal, li_final in Hk. cbn [st_i st_p st_rest st_c] in Hk. inversion Hk; subst e cc. clear Hk.
   eexists. split.
   - unfold re_search. cbn [search_from]. unfold match_at. rewrite E. reflexivity.
   - cbn [option_map mk_mres m_groups]. rewrite Hng. cbn [group_list cap_get Nat.eqb option_map]. unfold cap_text. cbn [c_s c_e c_txt].
-    replace (lenN item + 2 - 0) with (lenN (dash :: 32 :: item)) by (cbn [lenN]; lia).
-    replace (1 - 0) with (lenN [dash]) by (cbn; lia).
+    replace (lenN item + 2 - 0) with (lenN (mk :: 32 :: item)) by (cbn [lenN]; lia).
+    replace (1 - 0) with (lenN [mk]) by (cbn; lia).
     replace (lenN item + 2 - 2) with (lenN item) by lia.
-    rewrite !takeN_all. change (dash :: 32 :: item) with ([dash] ++ 32 :: item). rewrite takeN_app_exact. reflexivity.
+    rewrite !takeN_all. change (mk :: 32 :: item) with ([mk] ++ 32 :: item). rewrite takeN_app_exact. reflexivity.
 Qed.
 
-(* no line-block pattern matches a line that starts with the dash *)
-Definition li_alphabet : list char := safe_alphabet ++ [dash].
-Lemma li_line_blocks : forallb (fun d => never_matches li_alphabet [dash] (re_ast (l_re d))) lineblocks_defs = true.
+(* no line-block pattern matches a line that starts with the mk *)
+Definition li_alphabet : list char := safe_alphabet ++ markers.
+Lemma li_line_blocks : forallb (fun d => never_matches li_alphabet markers (re_ast (l_re d))) lineblocks_defs = true.
 Proof. vm_compute. reflexivity. Qed.
 
 Lemma lineblocks_loop_none_rest fuel l rest s : forall defs,
@@ -178,8 +199,8 @@ Lemma li_stage_line_rest fuel item rest s : li_item_ok item ->
 Proof.
   intros [Hitem _]. unfold lineblocks_render. apply lineblocks_loop_none_rest. intros d Hd.
   pose proof li_line_blocks as H. rewrite forallb_forall in H. specialize (H d Hd).
-  unfold li_line. eapply never_matches_sound; [exact H|left; reflexivity|].
-  unfold li_alphabet. intros x [<-|[<-|Hx]]; apply in_or_app; [right; left; reflexivity|left; vm_compute; intuition|left; auto].
+  unfold li_line. eapply never_matches_sound; [exact H|exact Hmk|].
+  unfold li_alphabet. intros x [<-|[<-|Hx]]; apply in_or_app; [right; exact Hmk|left; vm_compute; intuition|left; auto].
 Qed.
 
 Lemma li_stage_line fuel item s : li_item_ok item -> lineblocks_render fuel [li_line item] [] s = Ok ((None, [li_line item]), s).
@@ -261,6 +282,51 @@ Lemma renderListItem_unfold n it rd :
    end).
 Proof. reflexivity. Qed.
 
+Lemma itemLoop_unfold n rd itemLines attached attachedDone :
+  itemLoop fuel doc (S n) rd itemLines attached attachedDone =
+  (r <- consumeBlockAttributes fuel n rd 0%Z [] ;;
+   let '(blankLines, out, rd1) := r in
+   let attached := attached ++ out in
+   if (2 <=? blankLines)%Z || (blankLines =? -1)%Z then ret (None, rd1, itemLines, attached)
+   else
+     r <- matchItem rd1 ;;
+     let '(nextItem, rd2) := r in
+     match nextItem with
+     | Some nx =>
+         is_open <- gets (fun s => mem (it_id nx) (s_listids s)) ;;
+         if is_open then ret (Some nx, rd2, itemLines, attached)
+         else
+           r <- renderList fuel doc n nx rd2 ;;
+           let '(out, nn, rd3) := r in
+           ret (nn, rd3, itemLines, attached ++ out)
+     | None =>
+         if attachedDone then ret (None, rd2, itemLines, attached)
+         else if (blankLines =? 0)%Z then
+           saved <- gets s_listids ;;
+           modify (fun s => set_listids s []) ;;;
+           r <- dblocks_render fuel doc rd2 lists_allowed0 ;;
+           modify (fun s => set_listids s saved) ;;;
+           match r with
+           | (Some out, rd3) => itemLoop fuel doc n rd3 itemLines (attached ++ out) true
+           | (None, rd3) =>
+               match rd3 with
+               | [] => raise ExAssert
+               | cur :: rest => itemLoop fuel doc n rest (itemLines ++ cur ++ [10]) attached attachedDone
+               end
+           end
+         else if (blankLines =? 1)%Z then
+           saved <- gets s_listids ;;
+           modify (fun s => set_listids s []) ;;;
+           r <- dblocks_render fuel doc rd2 lists_allowed1 ;;
+           modify (fun s => set_listids s saved) ;;;
+           match r with
+           | (Some out, rd3) => itemLoop fuel doc n rd3 itemLines (attached ++ out) true
+           | (None, rd3) => ret (None, rd3, itemLines, attached)
+           end
+         else out_of_fuel
+     end).
+Proof. reflexivity. Qed.
+
 Lemma renderItems_unfold n it rd :
   renderItems fuel doc (S n) it rd =
   (r <- renderListItem fuel doc n it rd ;;
@@ -286,8 +352,8 @@ Lemma renderList_unfold n it rd :
 Proof. reflexivity. Qed.
 
 Lemma renderListItem_single n item m s : li_item_ok item -> defaults (ienv_of s) -> pending_empty s ->
-  m_groups m = [Some (li_line item); Some [dash]; Some item] ->
-  renderListItem fuel doc (S (S (S n))) (mkItem m ul_def [dash]) [li_line item] s =
+  m_groups m = [Some (li_line item); Some [mk]; Some item] ->
+  renderListItem fuel doc (S (S (S n))) (mkItem m ul_def [mk]) [li_line item] s =
   Ok (($"<li>" ++ escape item ++ $"</li>", None, []), s).
 Proof.
   intros Hitem Hd Hp Hg. pose proof Hitem as [_ (c & t & Ei & Hc & Hl)].
@@ -302,21 +368,21 @@ Proof.
   pose proof (inline_item fuel' (ienv_of s) item Hd Hitem) as Hin. unfold list_expand in Hin. fold fuel in Hin. rewrite Hin.
   cbn [iret log_msgs bind ret]. rewrite Fic. rewrite app_nil_l. reflexivity.
 Qed.
-Lemma renderList_single n item m s : li_item_ok item -> defaults (ienv_of s) -> pending_empty s -> s_listids s = [] ->
-  m_groups m = [Some (li_line item); Some [dash]; Some item] ->
-  renderList fuel doc (S (S (S (S (S n))))) (mkItem m ul_def [dash]) [li_line item] s =
+Lemma renderList_single n item m s L : li_item_ok item -> defaults (ienv_of s) -> pending_empty s -> s_listids s = L ->
+  m_groups m = [Some (li_line item); Some [mk]; Some item] ->
+  renderList fuel doc (S (S (S (S (S n))))) (mkItem m ul_def [mk]) [li_line item] s =
   Ok (($"<ul>" ++ ($"<li>" ++ escape item ++ $"</li>") ++ $"</ul>", None, []), s).
 Proof.
   intros Hitem Hd Hp Hids Hg. destruct ul_facts as (Fo & Fc & _).
-  rewrite renderList_unfold. cbn [it_id it_def]. unfold bind at 1. cbn [modify]. rewrite Hids. cbn [app].
-  set (s1 := set_listids s [[dash]]).
-  assert (Hp1 : pending_empty s1) by exact Hp.
-  assert (Hd1 : defaults (ienv_of s1)) by exact Hd.
+  rewrite renderList_unfold. cbn [it_id it_def]. unfold bind at 1. cbn [modify]. rewrite Hids.
+  assert (Hp1 : pending_empty (set_listids s (L ++ [[mk]]))) by exact Hp.
+  assert (Hd1 : defaults (ienv_of (set_listids s (L ++ [[mk]])))) by exact Hd.
   unfold bind at 1. rewrite Fo. change ($"<ul>") with (60 :: $"ul>"). rewrite inject_nothing_pending by exact Hp1.
   unfold bind at 1. rewrite renderItems_unfold. unfold bind at 1.
-  pose proof (renderListItem_single n item m (set_listids s [[dash]]) Hitem Hd1 Hp1 Hg) as E1.
+  pose proof (renderListItem_single n item m (set_listids s (L ++ [[mk]])) Hitem Hd1 Hp1 Hg) as E1.
   unfold reader, str, char in *. rewrite E1. cbn [ret].
-  unfold bind at 1. unfold pop_listid. unfold bind at 1. cbn [gets s1 s_listids set_listids frev rev_append modify].
+  unfold bind at 1. unfold pop_listid. unfold bind at 1. cbn [gets s_listids set_listids].
+  rewrite frev_app1. cbn [modify]. rewrite frev_frev.
   rewrite Fc. f_equal. f_equal. destruct s; cbn in *; subst; reflexivity.
 Qed.
 
@@ -327,10 +393,10 @@ Proof.
   intros Hitem Hd Hp. destruct (li_match item Hitem) as (m & Hm & Hg).
   destruct ul_facts as (_ & _ & _ & _ & _ & Fng & _ & _ & Fdefs).
   unfold lists_render. unfold bind at 1. unfold matchItem. rewrite Fdefs. cbn [matchItem_loop]. fold ulre. rewrite Hm.
-  unfold grp0, grp_s, grp. rewrite Hg. cbn [nth li_line]. replace (dash =? 92) with false by reflexivity.
+  unfold grp0, grp_s, grp. rewrite Hg. cbn [nth li_line]. rewrite mk_not_bs.
   rewrite Fng. cbn [Nat.sub nth ret].
   unfold bind at 1. cbn [modify].
-  pose proof (renderList_single n item m (set_listids s []) Hitem Hd Hp eq_refl Hg) as E1.
+  pose proof (renderList_single n item m (set_listids s []) [] Hitem Hd Hp eq_refl Hg) as E1.
   unfold bind at 1. unfold reader, str, char in *. rewrite E1.
   cbn [gets s_listids set_listids ret bind]. reflexivity.
 Qed.
@@ -347,27 +413,27 @@ Proof.
       destruct (_ && _); [apply IH; intros d' Hd'; apply H; right; exact Hd'|].
       rewrite (H d (or_introl eq_refl)). apply IH. intros d' Hd'. apply H. right. exact Hd'. }
     apply G. intros d Hd. pose proof li_line_blocks as H. rewrite forallb_forall in H. specialize (H d Hd).
-    unfold li_line. eapply never_matches_sound; [exact H|left; reflexivity|].
-    unfold li_alphabet. intros x [<-|[<-|Hx]]; apply in_or_app; [right; left; reflexivity|left; vm_compute; intuition|left; auto]. }
+    unfold li_line. eapply never_matches_sound; [exact H|exact Hmk|].
+    unfold li_alphabet. intros x [<-|[<-|Hx]]; apply in_or_app; [right; exact Hmk|left; vm_compute; intuition|left; auto]. }
   rewrite Hl. cbn [nonempty is_empty negb li_line]. reflexivity.
 Qed.
 
 Lemma matchItem_item item rest s : li_item_ok item ->
-  exists m, m_groups m = [Some (li_line item); Some [dash]; Some item] /\
-            matchItem (li_line item :: rest) s = Ok ((Some (mkItem m ul_def [dash]), li_line item :: rest), s).
+  exists m, m_groups m = [Some (li_line item); Some [mk]; Some item] /\
+            matchItem (li_line item :: rest) s = Ok ((Some (mkItem m ul_def [mk]), li_line item :: rest), s).
 Proof.
   intros Hitem. destruct (li_match item Hitem) as (m & Hm & Hg). exists m. split; [exact Hg|].
   destruct ul_facts as (_ & _ & _ & _ & _ & Fng & _ & _ & Fdefs).
   unfold matchItem. rewrite Fdefs. cbn [matchItem_loop]. fold ulre. rewrite Hm.
-  unfold grp0, grp_s, grp. rewrite Hg. cbn [nth li_line]. replace (dash =? 92) with false by reflexivity.
+  unfold grp0, grp_s, grp. rewrite Hg. cbn [nth li_line]. rewrite mk_not_bs.
   rewrite Fng. cbn [Nat.sub nth ret]. reflexivity.
 Qed.
 
 Lemma renderListItem_first n item1 item2 m1 s : li_item_ok item1 -> li_item_ok item2 -> defaults (ienv_of s) -> pending_empty s ->
-  s_listids s = [[dash]] -> m_groups m1 = [Some (li_line item1); Some [dash]; Some item1] ->
-  exists m2, m_groups m2 = [Some (li_line item2); Some [dash]; Some item2] /\
-  renderListItem fuel doc (S (S (S n))) (mkItem m1 ul_def [dash]) [li_line item1; li_line item2] s =
-  Ok (($"<li>" ++ escape item1 ++ $"</li>", Some (mkItem m2 ul_def [dash]), [li_line item2]), s).
+  s_listids s = [[mk]] -> m_groups m1 = [Some (li_line item1); Some [mk]; Some item1] ->
+  exists m2, m_groups m2 = [Some (li_line item2); Some [mk]; Some item2] /\
+  renderListItem fuel doc (S (S (S n))) (mkItem m1 ul_def [mk]) [li_line item1; li_line item2] s =
+  Ok (($"<li>" ++ escape item1 ++ $"</li>", Some (mkItem m2 ul_def [mk]), [li_line item2]), s).
 Proof.
   intros Hi1 Hi2 Hd Hp Hids Hg. pose proof Hi1 as [_ (c & t & Ei & Hc & Hl)].
   destruct (matchItem_item item2 [] s Hi2) as (m2 & Hg2 & Hm2). exists m2. split; [exact Hg2|].
@@ -378,10 +444,10 @@ Proof.
   unfold item_text. cbn [it_m it_def]. fold ulre. rewrite Fng. unfold grp at 1. rewrite Hg. cbn [nth].
   cbn [tl]. unfold bind at 1.
   assert (Hloop : itemLoop fuel doc (S (S n)) [li_line item2] (item1 ++ [10]) [] false s =
-                  Ok ((Some (mkItem m2 ul_def [dash]), [li_line item2], item1 ++ [10], [] ++ []), s)).
+                  Ok ((Some (mkItem m2 ul_def [mk]), [li_line item2], item1 ++ [10], [] ++ []), s)).
   { cbn [itemLoop]. unfold bind at 1. rewrite (cba_item n item2 [] s Hi2). cbn [orb Z.leb Z.eqb Z.compare].
     unfold bind at 1. unfold reader, str, char in *. rewrite Hm2. cbn [it_id].
-    unfold bind at 1. cbn [gets]. rewrite Hids. replace (mem [dash] [[dash]]) with true by reflexivity. reflexivity. }
+    unfold bind at 1. cbn [gets it_id]. rewrite Hids. pose proof mk_mem as Hmm. unfold reader, str, char in Hmm. rewrite Hmm. reflexivity. }
   unfold reader, str, char in *. rewrite Hloop.
   cbn [ret]. unfold bind at 1. unfold lift.
   pose proof (strip_item item1 c t Ei Hc Hl) as Hs. unfold reader, str, char in Hs. rewrite Hs.
@@ -391,20 +457,20 @@ Proof.
 Qed.
 
 Lemma renderList_two n item1 item2 m1 s : li_item_ok item1 -> li_item_ok item2 -> defaults (ienv_of s) -> pending_empty s ->
-  s_listids s = [] -> m_groups m1 = [Some (li_line item1); Some [dash]; Some item1] ->
-  renderList fuel doc (S (S (S (S (S (S n)))))) (mkItem m1 ul_def [dash]) [li_line item1; li_line item2] s =
+  s_listids s = [] -> m_groups m1 = [Some (li_line item1); Some [mk]; Some item1] ->
+  renderList fuel doc (S (S (S (S (S (S n)))))) (mkItem m1 ul_def [mk]) [li_line item1; li_line item2] s =
   Ok (($"<ul>" ++ (($"<li>" ++ escape item1 ++ $"</li>") ++ ($"<li>" ++ escape item2 ++ $"</li>")) ++ $"</ul>", None, []), s).
 Proof.
   intros Hi1 Hi2 Hd Hp Hids Hg. destruct ul_facts as (Fo & Fc & _).
   rewrite renderList_unfold. cbn [it_id it_def]. unfold bind at 1. cbn [modify]. rewrite Hids. cbn [app].
-  assert (Hp1 : pending_empty (set_listids s [[dash]])) by exact Hp.
-  assert (Hd1 : defaults (ienv_of (set_listids s [[dash]]))) by exact Hd.
+  assert (Hp1 : pending_empty (set_listids s [[mk]])) by exact Hp.
+  assert (Hd1 : defaults (ienv_of (set_listids s [[mk]]))) by exact Hd.
   unfold bind at 1. rewrite Fo. change ($"<ul>") with (60 :: $"ul>"). rewrite inject_nothing_pending by exact Hp1.
   unfold bind at 1. rewrite renderItems_unfold. unfold bind at 1.
-  destruct (renderListItem_first (S n) item1 item2 m1 (set_listids s [[dash]]) Hi1 Hi2 Hd1 Hp1 eq_refl Hg) as (m2 & Hg2 & E1).
-  unfold reader, str, char in *. rewrite E1. cbn [it_id str_eqb N.eqb Pos.eqb andb dash].
+  destruct (renderListItem_first (S n) item1 item2 m1 (set_listids s [[mk]]) Hi1 Hi2 Hd1 Hp1 eq_refl Hg) as (m2 & Hg2 & E1).
+  unfold reader, str, char in *. rewrite E1. cbn [it_id]. pose proof mk_eqb_refl as Hee. unfold reader, str, char in Hee. rewrite Hee.
   unfold bind at 1. rewrite renderItems_unfold. unfold bind at 1.
-  pose proof (renderListItem_single n item2 m2 (set_listids s [[dash]]) Hi2 Hd1 Hp1 Hg2) as E2.
+  pose proof (renderListItem_single n item2 m2 (set_listids s [[mk]]) Hi2 Hd1 Hp1 Hg2) as E2.
   unfold reader, str, char in *. rewrite E2. cbn [ret].
   unfold bind at 1. unfold pop_listid. unfold bind at 1. cbn [gets s_listids set_listids frev rev_append modify].
   rewrite Fc. f_equal. f_equal. destruct s; cbn in *; subst; reflexivity.
@@ -428,7 +494,7 @@ Lemma li_reader item : li_item_ok item -> mk_reader (li_line item) = [li_line it
 Proof.
   intros [Hitem _]. rewrite mk_reader_spec.
   assert (Hch : forall x, In x (li_line item) -> is_nl x = false /\ reserved x = false).
-  { intros x [<-|[<-|Hx]]; [split; reflexivity|split; reflexivity|]. apply Hitem in Hx.
+  { intros x [<-|[<-|Hx]]; [destruct mk_cases as [-> | ->]; split; reflexivity|split; reflexivity|]. apply Hitem in Hx.
     pose proof safe_no_special as F. rewrite forallb_forall in F. apply F in Hx. apply andb_prop in Hx as [H1 H2].
     apply negb_true_iff in H1, H2. auto. }
   assert (Hb : blank_reserved (li_line item) = li_line item).
@@ -466,7 +532,7 @@ Proof.
              ($"<ul>" ++ ($"<li>" ++ escape item ++ $"</li>") ++ $"</ul>") [] s s (set_listids s [])).
   - rewrite (TableFacts.doc_loop_blank_only _ _ (S (S (S (S n)))) [] (set_listids s [])) by reflexivity.
     rewrite app_nil_r. cbn [app]. rewrite <- !app_assoc. reflexivity.
-  - unfold li_line. cbn [skipBlankLines]. rewrite strip_nonblank; reflexivity.
+  - unfold li_line. cbn [skipBlankLines]. rewrite strip_nonblank; [reflexivity|destruct mk_cases as [-> | ->]; reflexivity].
   - apply li_stage_line. exact Hitem.
   - apply (lists_render_single (S (S (S n))) _ n item s Hitem (quiet_defaults s Hq) Hp).
 Qed.
@@ -474,7 +540,7 @@ Qed.
 (* ---- two items ---- *)
 Lemma li_line_chars item : li_item_ok item -> forall x, In x (li_line item) -> is_nl x = false /\ reserved x = false.
 Proof.
-  intros [Hitem _] x [<-|[<-|Hx]]; [split; reflexivity|split; reflexivity|]. apply Hitem in Hx.
+  intros [Hitem _] x [<-|[<-|Hx]]; [destruct mk_cases as [-> | ->]; split; reflexivity|split; reflexivity|]. apply Hitem in Hx.
   pose proof safe_no_special as F. rewrite forallb_forall in F. apply F in Hx. apply andb_prop in Hx as [H1 H2].
   apply negb_true_iff in H1, H2. auto.
 Qed.
@@ -509,14 +575,133 @@ Proof.
              ($"<ul>" ++ (($"<li>" ++ escape item1 ++ $"</li>") ++ ($"<li>" ++ escape item2 ++ $"</li>")) ++ $"</ul>") [] s s (set_listids s [])).
   - rewrite (TableFacts.doc_loop_blank_only _ _ (S (S (S (S (S n))))) [] (set_listids s [])) by reflexivity.
     rewrite app_nil_r. cbn [app]. rewrite <- !app_assoc. cbn [app]. reflexivity.
-  - unfold li_line at 1. cbn [skipBlankLines]. rewrite strip_nonblank; reflexivity.
+  - unfold li_line at 1. cbn [skipBlankLines]. rewrite strip_nonblank; [reflexivity|destruct mk_cases as [-> | ->]; reflexivity].
   - pose proof (li_stage_line_rest (S (S (S (S (S (S (S n))))))) item1 [li_line item2] s Hi1) as E. exact E.
   - apply (lists_render_two (S (S (S (S n)))) _ n item1 item2 s Hi1 Hi2 (quiet_defaults s Hq) Hp).
 Qed.
 
-(* ---- the same through rimu.render, whatever the option values of the call do to the session first ---- *)
-Corollary single_item_list_api n item o s s1 :
-  updateFrom o (if (s_mode s =? -1)%Z then document_init s else s) = Ok (tt, s1) -> quiet_default s1 -> li_item_ok item ->
-  api_render (S (S (S (S (S (S (S n))))))) (li_line item) o s = Ok ($"<ul><li>" ++ escape item ++ $"</li></ul>", set_listids s1 []).
-Proof. intros Hu Hq Hi. eapply api_of_doc; [exact Hu|]. apply single_item_list_document; assumption. Qed.
+End Marker.
 
+(* ---- a different marker opens a child list ---- *)
+Lemma markers_mem_ne mk1 mk2 : In mk1 markers -> In mk2 markers -> mk1 <> mk2 -> mem [mk2] [[mk1]] = false.
+Proof.
+  intros [<-|[<-|[]]] [<-|[<-|[]]] H; try reflexivity; congruence.
+Qed.
+
+Section Nested.
+Variables mk1 mk2 : char.
+Hypothesis H1 : In mk1 markers.
+Hypothesis H2 : In mk2 markers.
+Hypothesis Hne : mk1 <> mk2.
+Variable fuel' : nat.
+Let fuel := S (S (S fuel')).
+Variable doc : str -> M str.
+
+Definition child_html (item2 : str) : str := $"<ul>" ++ ($"<li>" ++ escape item2 ++ $"</li>") ++ $"</ul>".
+
+Lemma renderListItem_parent n item1 item2 m1 s : li_item_ok item1 -> li_item_ok item2 -> defaults (ienv_of s) -> pending_empty s ->
+  s_listids s = [[mk1]] -> m_groups m1 = [Some (li_line mk1 item1); Some [mk1]; Some item1] ->
+  renderListItem (S (S (S fuel'))) doc (S (S (S (S (S (S (S n))))))) (mkItem m1 ul_def [mk1]) [li_line mk1 item1; li_line mk2 item2] s =
+  Ok (($"<li>" ++ escape item1 ++ child_html item2 ++ $"</li>", None, []), s).
+Proof.
+  intros Hi1 Hi2 Hd Hp Hids Hg. pose proof Hi1 as [_ (c & t & Ei & Hc & Hl)].
+  destruct (matchItem_item mk2 H2 item2 [] s Hi2) as (m2 & Hg2 & Hm2).
+  destruct ul_facts as (Fo & Fc & Fio & Fic & Fto & Fng & _).
+  rewrite renderListItem_unfold. cbv zeta. cbn [it_def it_m]. rewrite Fto. cbn [nonempty is_empty negb].
+  unfold bind at 1. cbn [ret]. unfold bind at 1. rewrite Fio.
+  change ($"<li>") with (60 :: $"li>"). rewrite inject_nothing_pending by exact Hp.
+  unfold item_text. cbn [it_m it_def]. fold ulre. rewrite Fng. unfold grp at 1. rewrite Hg. cbn [nth].
+  cbn [tl]. unfold bind at 1.
+  assert (Hloop : itemLoop (S (S (S fuel'))) doc (S (S (S (S (S (S n)))))) [li_line mk2 item2] (item1 ++ [10]) [] false s =
+                  Ok ((None, [], item1 ++ [10], ([] ++ []) ++ child_html item2), s)).
+  { rewrite itemLoop_unfold. unfold bind at 1. rewrite (cba_item mk2 H2 fuel' doc (S (S (S (S n)))) item2 [] s Hi2). cbv zeta. cbn [orb Z.leb Z.eqb Z.compare app].
+    unfold bind at 1. unfold reader, str, char in *. rewrite Hm2. cbn [it_id].
+    unfold bind at 1. cbn [gets]. rewrite Hids.
+    pose proof (markers_mem_ne mk1 mk2 H1 H2 Hne) as Hmm. unfold reader, str, char in Hmm. rewrite Hmm.
+    unfold bind at 1.
+    pose proof (renderList_single mk2 fuel' doc n item2 m2 s [[mk1]] Hi2 Hd Hp Hids Hg2) as E. fold (child_html item2) in E.
+    unfold reader, str, char in E. rewrite E. reflexivity. }
+  unfold reader, str, char in *. rewrite Hloop.
+  cbn [ret]. unfold bind at 1. unfold lift.
+  pose proof (strip_item item1 c t Ei Hc Hl) as Hs. unfold reader, str, char in Hs. rewrite Hs.
+  pose proof (inline_item fuel' (ienv_of s) item1 Hd Hi1) as Hin. unfold list_expand in Hin.
+  unfold reader, str, char in Hin. rewrite Hin.
+  cbn [iret log_msgs bind ret]. rewrite Fic. rewrite !app_nil_l. reflexivity.
+Qed.
+
+Lemma renderList_parent n item1 item2 m1 s : li_item_ok item1 -> li_item_ok item2 -> defaults (ienv_of s) -> pending_empty s ->
+  s_listids s = [] -> m_groups m1 = [Some (li_line mk1 item1); Some [mk1]; Some item1] ->
+  renderList (S (S (S fuel'))) doc (S (S (S (S (S (S (S (S (S n))))))))) (mkItem m1 ul_def [mk1]) [li_line mk1 item1; li_line mk2 item2] s =
+  Ok (($"<ul>" ++ ($"<li>" ++ escape item1 ++ child_html item2 ++ $"</li>") ++ $"</ul>", None, []), s).
+Proof.
+  intros Hi1 Hi2 Hd Hp Hids Hg. destruct ul_facts as (Fo & Fc & _).
+  rewrite renderList_unfold. cbn [it_id it_def]. unfold bind at 1. cbn [modify]. rewrite Hids. cbn [app].
+  assert (Hp1 : pending_empty (set_listids s [[mk1]])) by exact Hp.
+  assert (Hd1 : defaults (ienv_of (set_listids s [[mk1]]))) by exact Hd.
+  unfold bind at 1. rewrite Fo. change ($"<ul>") with (60 :: $"ul>"). rewrite inject_nothing_pending by exact Hp1.
+  unfold bind at 1. rewrite renderItems_unfold. unfold bind at 1.
+  pose proof (renderListItem_parent n item1 item2 m1 (set_listids s [[mk1]]) Hi1 Hi2 Hd1 Hp1 eq_refl Hg) as E1.
+  unfold reader, str, char in *. rewrite E1. cbn [ret].
+  unfold bind at 1. unfold pop_listid. unfold bind at 1. cbn [gets s_listids set_listids frev rev_append modify].
+  rewrite Fc. f_equal. f_equal. destruct s; cbn in *; subst; reflexivity.
+Qed.
+
+Lemma lists_render_nested n item1 item2 s : li_item_ok item1 -> li_item_ok item2 -> defaults (ienv_of s) -> pending_empty s ->
+  lists_render (S (S (S fuel'))) doc (S (S (S (S (S (S (S (S (S n))))))))) [li_line mk1 item1; li_line mk2 item2] s =
+  Ok ((Some ($"<ul>" ++ ($"<li>" ++ escape item1 ++ child_html item2 ++ $"</li>") ++ $"</ul>"), []), set_listids s []).
+Proof.
+  intros Hi1 Hi2 Hd Hp. destruct (matchItem_item mk1 H1 item1 [li_line mk2 item2] s Hi1) as (m1 & Hg1 & Hm1).
+  unfold lists_render. unfold bind at 1. unfold reader, str, char in *. rewrite Hm1.
+  unfold bind at 1. cbn [modify]. unfold bind at 1.
+  pose proof (renderList_parent n item1 item2 m1 (set_listids s []) Hi1 Hi2 Hd Hp eq_refl Hg1) as E1.
+  unfold reader, str, char in *. rewrite E1.
+  cbn [gets s_listids set_listids ret bind]. reflexivity.
+Qed.
+End Nested.
+
+Lemma li_reader_two mk1 mk2 item1 item2 : In mk1 markers -> In mk2 markers -> li_item_ok item1 -> li_item_ok item2 ->
+  mk_reader (li_line mk1 item1 ++ 10 :: li_line mk2 item2) = [li_line mk1 item1; li_line mk2 item2].
+Proof.
+  intros M1 M2 H1 H2. rewrite mk_reader_spec.
+  assert (Hb : blank_reserved (li_line mk1 item1 ++ 10 :: li_line mk2 item2) = li_line mk1 item1 ++ 10 :: li_line mk2 item2).
+  { unfold blank_reserved. rewrite <- (map_id (li_line mk1 item1 ++ 10 :: li_line mk2 item2)) at 2. apply map_ext_in. intros x Hx.
+    assert (Hr : reserved x = false).
+    { apply in_app_or in Hx as [Hx|[<-|Hx]]; [apply (li_line_chars mk1 M1 item1 H1 x Hx)|reflexivity|apply (li_line_chars mk2 M2 item2 H2 x Hx)]. }
+    unfold reserved in Hr. rewrite Hr. reflexivity. }
+  rewrite Hb. unfold split_lines.
+  rewrite (split_aux_prefix (li_line mk1 item1) (10 :: li_line mk2 item2) [] (fun x Hx => proj1 (li_line_chars mk1 M1 item1 H1 x Hx))).
+  cbn [split_lines_aux]. rewrite split_aux_nil_cur_frev.
+  pose proof (split_aux_prefix (li_line mk2 item2) [] [] (fun x Hx => proj1 (li_line_chars mk2 M2 item2 H2 x Hx))) as E. rewrite app_nil_r in E.
+  rewrite E. cbn [split_lines_aux]. rewrite split_aux_nil_cur_frev. reflexivity.
+Qed.
+
+Theorem nested_list_document n mk1 mk2 item1 item2 s : In mk1 markers -> In mk2 markers -> mk1 <> mk2 ->
+  quiet_default s -> li_item_ok item1 -> li_item_ok item2 ->
+  doc_render (S (S (S (S (S (S (S (S (S (S (S n))))))))))) (li_line mk1 item1 ++ 10 :: li_line mk2 item2) s =
+  Ok ($"<ul><li>" ++ escape item1 ++ $"<ul><li>" ++ escape item2 ++ $"</li></ul></li></ul>", set_listids s []).
+Proof.
+  intros M1 M2 Hne Hq Hi1 Hi2. pose proof Hq as (Hd & Hr & Hqt & Hp & Ho).
+  change (doc_render (S (S (S (S (S (S (S (S (S (S (S n))))))))))) (li_line mk1 item1 ++ 10 :: li_line mk2 item2)) with
+    (doc_loop (S (S (S (S (S (S (S (S (S (S n)))))))))) (doc_render (S (S (S (S (S (S (S (S (S (S n))))))))))) (S (S (S (S (S (S (S (S (S (S n))))))))))
+       (mk_reader (li_line mk1 item1 ++ 10 :: li_line mk2 item2))).
+  rewrite (li_reader_two mk1 mk2 item1 item2 M1 M2 Hi1 Hi2).
+  rewrite (doc_loop_list_block _ _ (S (S (S (S (S (S (S (S (S n))))))))) [li_line mk1 item1; li_line mk2 item2] (li_line mk1 item1) [li_line mk2 item2]
+             [li_line mk1 item1; li_line mk2 item2]
+             ($"<ul>" ++ ($"<li>" ++ escape item1 ++ child_html item2 ++ $"</li>") ++ $"</ul>") [] s s (set_listids s [])).
+  - rewrite (TableFacts.doc_loop_blank_only _ _ (S (S (S (S (S (S (S (S n)))))))) [] (set_listids s [])) by reflexivity.
+    rewrite app_nil_r. unfold child_html. cbn [app]. repeat (rewrite <- app_assoc; cbn [app]). reflexivity.
+  - unfold li_line at 1. cbn [skipBlankLines]. rewrite strip_nonblank; [reflexivity|destruct (mk_cases mk1 M1) as [-> | ->]; reflexivity].
+  - apply (li_stage_line_rest mk1 M1).  exact Hi1.
+  - apply (lists_render_nested mk1 mk2 M1 M2 Hne (S (S (S (S (S (S (S n))))))) _ n item1 item2 s Hi1 Hi2 (quiet_defaults s Hq) Hp).
+Qed.
+
+(* ---- the same through rimu.render, whatever the option values of the call do to the session first ---- *)
+Lemma dash_in : In dash markers.
+Proof. left. reflexivity. Qed.
+Lemma plus_in : In plus markers.
+Proof. right. left. reflexivity. Qed.
+
+Corollary single_item_list_api n mk item o s s1 : In mk markers ->
+  updateFrom o (if (s_mode s =? -1)%Z then document_init s else s) = Ok (tt, s1) -> quiet_default s1 -> li_item_ok item ->
+  api_render (S (S (S (S (S (S (S n))))))) (li_line mk item) o s = Ok ($"<ul><li>" ++ escape item ++ $"</li></ul>", set_listids s1 []).
+Proof. intros Hmk Hu Hq Hi. eapply api_of_doc; [exact Hu|]. apply single_item_list_document; assumption. Qed.
